@@ -1527,6 +1527,73 @@ def np_where(condition, x=None, y=None):
     return NDArray(shp, fn, out)
 
 
+def np_roll(a, shift, axis=None):
+    """NP-ROLL: elements shifted along one axis, those pushed past the end re-enter at the start: out[..., i, ...] = a[..., (i - shift) mod n, ...]"""
+    used('NP-ROLL')
+    a = asarray(a)
+    if axis is None or is_sym(axis) or is_sym(shift) or not isinstance(shift, int) or isinstance(shift, bool):
+        raise Unsupported('roll without a concrete axis / shift')
+    ax = axis if axis >= 0 else axis + a.ndim
+    if not 0 <= ax < a.ndim:
+        raise_(ValueError, 'axis out of range')
+    n = a.shape[ax]
+    src = a.frozen()
+
+    def remap(i):
+        k = i[ax]
+        if not is_sym(n) and not is_sym(k):
+            j = (k - shift) % n if n else k
+        else:
+            j = mk_int((zint(k) - shift) % zint(n))
+        return tuple(i[:ax]) + (j,) + tuple(i[ax + 1:])
+    return NDArray(a.shape, lambda i: src.fn(remap(i)), a.dtype, (lambda i: src.mask_fn(remap(i))) if a.mask_fn is not None else None)
+
+
+def np_median(a, axis=None, **kw):
+    """NP-MEDIAN: the median of a 1-D array of at most 6 finite values: the middle element of the sorted values, the mean of the two middle
+    ones for an even count (a compare-and-swap network over real values, A-REAL)"""
+    used('NP-MEDIAN')
+    from .floats import FIN, SFloat, to_sfloat
+    a = asarray(a)
+    n = a.shape[0] if a.ndim == 1 else None
+    if kw or axis not in (None, 0) or n is None or is_sym(n) or not 1 <= n <= 6 or a.mask_fn is not None:
+        raise Unsupported('median of a general array')
+    vals = [to_sfloat(to_float(a.fn((k,)))) for k in range(n)]
+    c = core.ctx()
+    for v in vals:
+        if v.is_fin() is not True and not c.branch(zbool(v.is_fin())):
+            raise Unsupported('median over non-finite values')
+    xs = [v.val for v in vals]
+    for i in range(n):
+        for j in range(n - 1 - i):
+            lo, hi = s_ite(xs[j] <= xs[j + 1], xs[j], xs[j + 1]), s_ite(xs[j] <= xs[j + 1], xs[j + 1], xs[j])
+            xs[j], xs[j + 1] = lo, hi
+    c.assumptions_used.add('A-REAL: finite float arithmetic is real arithmetic')
+    if n % 2:
+        return SFloat(FIN, xs[n // 2])
+    return SFloat(FIN, core.mk_real((core.zreal(xs[n // 2 - 1]) + core.zreal(xs[n // 2])) / 2))
+
+
+def np_clip(a, a_min=None, a_max=None, **kw):
+    """NP-CLIP: element-wise max(a_min, min(a, a_max)) for integers (either bound may be missing)"""
+    used('NP-CLIP')
+    if kw:
+        raise Unsupported('clip options')
+    a = asarray(a)
+    if a.dtype.kind not in 'iu' or a.mask_fn is not None or any(isinstance(b, NDArray) for b in (a_min, a_max)):
+        raise Unsupported('clip of a non-integer / masked array or with array bounds')
+    src = a.frozen()
+
+    def fn(i):
+        v = src.fn(i)
+        if a_max is not None:
+            v = s_ite(v > a_max, a_max, v)
+        if a_min is not None:
+            v = s_ite(v < a_min, a_min, v)
+        return v
+    return NDArray(a.shape, fn, a.dtype)
+
+
 def linspace(start, stop, num=50, endpoint=True, **kw):
     """NP-LINSPACE: num evenly spaced values from start to stop (both ends included): element i = start + i * (stop - start) / (num - 1);
     real arithmetic (A-REAL), finite or NaN end points (NaN spreads to every element)"""
@@ -2654,6 +2721,9 @@ class NumpyModule:
     arange = staticmethod(arange)
     linspace = staticmethod(linspace)
     where = staticmethod(np_where)
+    roll = staticmethod(np_roll)
+    median = staticmethod(np_median)
+    clip = staticmethod(np_clip)
     indices = staticmethod(indices)
     prod = staticmethod(np_prod)
     ravel_multi_index = staticmethod(ravel_multi_index)
